@@ -225,8 +225,79 @@ func drawPartSpecs(t *Tape, kind string) (init []partSpec, later []partSpec) {
 	return
 }
 
+// runC03Alias: one lookup partition object registered under two keys (a tier shared by two tenants); one of the keys
+// is removed later. The surviving key keeps the partition: its share of the current limit and its admissions.
+func runC03Alias(r *Run) {
+	t := r.T
+	L := 2 + t.Intn(40, "alias-limit")
+	kA, kB := 1+t.Intn(20, "alias-frac-a"), t.Intn(12, "alias-frac-b")
+	reg := core.EmptyMetricRegistryInstance
+	objA := strategy.NewLookupPartitionWithMetricRegistry("tierA", float64(kA)/32, 1, reg)
+	objB := strategy.NewLookupPartitionWithMetricRegistry("tierB", float64(kB)/32, 1, reg)
+	st, err := strategy.NewLookupPartitionStrategyWithMetricRegistry(map[string]*strategy.LookupPartition{"a": objA, "b": objB}, nil, int32(L), reg)
+	if err != nil {
+		r.Fail("harness", "build", "%v", err)
+		return
+	}
+	st.AddPartition("a2", objA)
+	gone, keep := "a", "a2"
+	if t.Chance(50, "alias-remove-second") {
+		gone, keep = "a2", "a"
+	}
+	newL := func(tag string) {
+		if t.Chance(50, tag) {
+			L = 2 + t.Intn(40, tag+"-v")
+			st.SetLimit(L)
+		}
+	}
+	ctxFor := func(key string) context.Context {
+		return context.WithValue(bg, matchers.LookupPartitionContextKey, key)
+	}
+	var held []core.StrategyToken
+	for i, n := 0, t.Intn(3, "alias-held-before"); i < n; i++ { // some requests of the shared tier are in flight meanwhile
+		if tok, ok := st.TryAcquire(ctxFor([]string{"a", "a2"}[i%2])); ok {
+			held = append(held, tok)
+		}
+	}
+	newL("alias-setlimit-before")
+	st.RemovePartition(gone)
+	newL("alias-setlimit-after")
+	r.Mixf("C03 alias L=%d fracA=%d/32 fracB=%d/32 removed=%s kept=%s held=%d", L, kA, kB, gone, keep, len(held))
+	want := share(L, kA)
+	if got, err := st.BinLimit(keep); err != nil || got != want {
+		r.Fail("bin-limit-wrong", "lookup/alias", "partition object registered under keys a and a2; after RemovePartition(%q) BinLimit(%q) = %d (err %v), expected its share %d of the limit %d", gone, keep, got, err, want, L)
+		return
+	}
+	for _, tok := range held {
+		tok.Release()
+	}
+	// fill the total with requests of other tenants, then the kept key is admitted exactly up to its share
+	for i := 0; i < L; i++ {
+		if _, ok := st.TryAcquire(ctxFor("zz")); !ok {
+			r.Fail("refused-with-room", "lookup/alias", "request %d of %d for an unknown key refused while the total is below the limit", i+1, L)
+			return
+		}
+	}
+	got := 0
+	for i := 0; i < want+2; i++ {
+		if _, ok := st.TryAcquire(ctxFor(keep)); ok {
+			got++
+		}
+	}
+	if got != want {
+		r.Fail("bin-mismatch", "lookup/alias", "with the total limit %d in use, key %q (its partition is also registered under the removed key %q) was admitted %d time(s); its share is %d", L, keep, gone, got, want)
+		return
+	}
+	r.Nontrivial = true
+	r.Probe("lookup_partition_under_two_keys")
+}
+
 func runC03(r *Run) {
 	t := r.T
+	if t.Chance(6, "alias-scenario") {
+		runC03Alias(r)
+		return
+	}
 	kind := []string{"lookup", "predicate"}[t.Intn(2, "kind")]
 	concurrent := t.Chance(40, "concurrent")
 	initSpecs, laterSpecs := drawPartSpecs(t, kind)
@@ -308,7 +379,15 @@ func runC03(r *Run) {
 		switch act {
 		case 0:
 			key := keys[t.Intn(len(keys), "key")]
-			tok, ok := sut.strat().TryAcquire(sut.ctx(key))
+			actx := sut.ctx(key)
+			if t.Chance(8, "abandoned-context") {
+				// admission is decided by the total and the bin, not by whether the caller is still interested
+				var cancel context.CancelFunc
+				actx, cancel = context.WithCancel(actx)
+				cancel()
+				r.Probe("acquire_with_cancelled_context")
+			}
+			tok, ok := sut.strat().TryAcquire(actx)
 			bin, want := g.tryAcquire(key)
 			what := fmt.Sprintf("TryAcquire(%q) -> %v", key, ok)
 			if r.Verbose {
